@@ -1014,6 +1014,10 @@ def tie_subject(prop, tier, seed, res):
         n = 20000 if tier == "quick" else 150000
         for i in range(n):
             cases.append(gen_c05_case(rng, i % NSIG, 40 if tier == "quick" else 70))
+        # "never invoked again" (C05_never_again) is stated for arbitrary callback scripts: a share of the histories has
+        # callbacks that unsubscribe / subscribe / invalidate during the round (the generator of C10)
+        for i in range(n // 5):
+            cases.append(gen_c10_random(rng, i % NSIG, 4, 3))
     else:
         cases += gen_c10_exhaustive(tier)
         nex = len(cases) - ncorpus
